@@ -23,14 +23,14 @@ from props import common
 
 ID = "C18"
 LEVEL = "exploration"
-QUICK_RUNS = 14000
+QUICK_RUNS = 10000
 QUICK_BUDGET_S = 50.0
 THOROUGH_RUNS = 10 ** 9
 BATCH = 100
-RULE = ("one run = one seeded tuple of 2-3 operation lists (schemaless/container read and write with and "
+RULE = ("one run = one seeded tuple of 2-3 operation lists (executed under 2 (quick) / 6 (thorough) seeded schedules) (schemaless/container read and write with and "
         "without logical types, validate, parse_schema, canonical form, fingerprint, JSON read/write) on "
-        "distinct streams sharing parsed schema objects, executed under ONE seeded schedule (uniform, "
-        "sticky or PCT depth 1-3) that switches only at CPython switch points in fastavro code; one "
+        "distinct streams sharing parsed schema objects, each schedule uniform, "
+        "sticky or PCT depth 1-3, 20% of them executed in a fresh fork of a pristine process, and each one switches only at CPython switch points in fastavro code; one "
         "evaluation = one schedule. non-trivial = at least one context switch happened while both tasks "
         "were inside fastavro frames; distinct = (operation tuple digest, interleaving signature = hash of "
         "the sequence of (task, code location, next task) at actual switches)")
@@ -340,58 +340,63 @@ def run_one(ch, ctx):
             raise Violation("solo", "task-crashed", detail={"task": i, "res": jsonable(r[1])}, scenario=desc)
         solo.append(r[1])
         steps += sc.step
+    nsched = 2 if ctx.tier == "quick" else 6
+    for si in range(nsched):
+        sseed, strategy, in_fresh = draw_schedule(ch, steps)
+        ctx.probe("strategy_" + strategy[0])
+        if in_fresh:
+            ctx.probe("fresh_process_schedule")
+            d = srv.call("props.c18", "fresh_sched_job", (prefix, sseed, list(strategy)))
+            if "abort" in d:
+                raise Violation("liveness", d["abort"], detail=d["what"], scenario=desc)
+            if d["tasks"] != json.dumps(desc["tasks"], sort_keys=True, default=str):
+                raise RuntimeError("harness error: the fresh process rebuilt a different scenario from the choice prefix")
+            sc = _FreshSched(d)
+            res = d["res"]
+        else:
+            try:
+                sc, res = _run_sched(F, E, tasks, sseed, strategy)
+            except (sched.Deadlock, sched.StepCap, sched.Stall) as e:
+                raise Violation("liveness", type(e).__name__, detail=str(e), scenario=desc)
+        ctx.evals += 1
+        ctx.steps += sc.step
+        ctx.fault("preempt", len(sc.switches))
+        if _both_in(sc, {"read_decimal"}):
+            ctx.probe("both_in_read_decimal")
+        if _both_in(sc, {"parse_schema", "_parse_schema", "parse_field"}):
+            ctx.probe("both_in_parse")
+        if _both_in(sc, {"dump", "write", "flush", "null_write_block", "deflate_write_block"}):
+            ctx.probe("both_in_writer_dump")
+        if _both_in(sc, {"_validate", "_validate_record", "_validate_union", "validate"}):
+            ctx.probe("both_in_validate")
+        ctx.ev_sched("sched", sc.signature(), sc.step, len(sc.switches))
+        ctx.sample = {"scenario": desc, "strategy": list(strategy), "switches": len(sc.switches),
+                      "first_switches": [list(x) for x in sc.switches[:6]]}
+        bad = _diff(solo, res, len(tasks))
+        if bad is not None:
+            t, j = bad[0], bad[1]
+            raise Violation("interleaving", "differs-from-solo",
+                            detail={"task": t, "op_index": j, "op": ops.describe(tasks[t][j]) if j is not None else None,
+                                    "solo": bad[2], "under_schedule": bad[3], "strategy": list(strategy), "schedule_index": si,
+                                    "switches": len(sc.switches), "scheduled_run_in_fresh_process": in_fresh},
+                            sig=f"interleaving:differs-from-solo:{fam}", scenario=desc)
+        inside = sum(1 for x in sc.switches if ":" in str(x[2]))
+        if inside >= 1:
+            ctx.key(json.dumps(desc["tasks"], sort_keys=True, default=str), sc.signature())
+    ctx.ev("ops", json.dumps(desc["tasks"], sort_keys=True, default=str))
+
+
+def draw_schedule(ch, steps):
     sseed = ch.fork("sched")
     sk = ch.weighted([3, 3, 4])
     if sk == 0:
         strategy = ("uniform",)
-        ctx.probe("strategy_uniform")
     elif sk == 1:
         strategy = ("sticky", ch.pick([500, 900, 990]))
-        ctx.probe("strategy_sticky")
     else:
         strategy = ("pct", 1 + ch.draw(3), max(2, steps))
-        ctx.probe("strategy_pct")
     in_fresh = ch.chance(20)
-    if in_fresh:
-        ctx.probe("fresh_process_schedule")
-        d = srv.call("props.c18", "fresh_sched_job", (prefix, sseed, list(strategy)))
-        if "abort" in d:
-            raise Violation("liveness", d["abort"], detail=d["what"], scenario=desc)
-        if d["tasks"] != json.dumps(desc["tasks"], sort_keys=True, default=str):
-            raise RuntimeError("harness error: the fresh process rebuilt a different scenario from the choice prefix")
-        sc = _FreshSched(d)
-        res = d["res"]
-    else:
-        try:
-            sc, res = _run_sched(F, E, tasks, sseed, strategy)
-        except (sched.Deadlock, sched.StepCap, sched.Stall) as e:
-            raise Violation("liveness", type(e).__name__, detail=str(e), scenario=desc)
-    ctx.evals += 1
-    ctx.steps += sc.step
-    ctx.fault("preempt", len(sc.switches))
-    if _both_in(sc, {"read_decimal"}):
-        ctx.probe("both_in_read_decimal")
-    if _both_in(sc, {"parse_schema", "_parse_schema", "parse_field"}):
-        ctx.probe("both_in_parse")
-    if _both_in(sc, {"dump", "write", "flush", "null_write_block", "deflate_write_block"}):
-        ctx.probe("both_in_writer_dump")
-    if _both_in(sc, {"_validate", "_validate_record", "_validate_union", "validate"}):
-        ctx.probe("both_in_validate")
-    ctx.ev_sched("sched", sc.signature(), sc.step, len(sc.switches))
-    ctx.ev("ops", json.dumps(desc["tasks"], sort_keys=True, default=str))
-    ctx.sample = {"scenario": desc, "strategy": list(strategy), "switches": len(sc.switches),
-                  "first_switches": [list(s) for s in sc.switches[:6]]}
-    bad = _diff(solo, res, len(tasks))
-    if bad is not None:
-        t, j = bad[0], bad[1]
-        raise Violation("interleaving", "differs-from-solo",
-                        detail={"task": t, "op_index": j, "op": ops.describe(tasks[t][j]) if j is not None else None,
-                                "solo": bad[2], "under_schedule": bad[3], "strategy": list(strategy),
-                                "switches": len(sc.switches), "scheduled_run_in_fresh_process": in_fresh},
-                        sig=f"interleaving:differs-from-solo:{fam}", scenario=desc)
-    inside = sum(1 for s in sc.switches if ":" in str(s[2]))
-    if inside >= 1:
-        ctx.key(json.dumps(desc["tasks"], sort_keys=True, default=str), sc.signature())
+    return sseed, strategy, in_fresh
 
 
 def _diff(solo, res, n):
@@ -424,12 +429,15 @@ def refine(recorded):
         sc.spawn(f"T{i}", _task_fn(F, copy.deepcopy(E), lst))
         solo.append(sc.run()[f"T{i}"][1])
         steps += sc.step
-    sseed = ch.fork("sched")
-    sk = ch.weighted([3, 3, 4])
-    strategy = ("uniform",) if sk == 0 else (("sticky", ch.pick([500, 900, 990])) if sk == 1 else ("pct", 1 + ch.draw(3), max(2, steps)))
-    sc, res = _run_sched(F, E, tasks, sseed, strategy)
-    if _diff(solo, res, n) is None:
-        return {}
+    sc = None
+    for si in range(6):
+        sseed, strategy, in_fresh = draw_schedule(ch, steps)
+        scx, resx = _run_sched(F, E, tasks, sseed, strategy)
+        if _diff(solo, resx, n) is not None:
+            sc, res = scx, resx
+            break
+    if sc is None:
+        return {"schedule_minimisation": "not reproduced in-process (violation needs the fresh-process schedule mode)"}
     script = list(sc.decisions)
     sc0, res0 = _run_sched(F, E, tasks, 0, ("script", script))
     if _diff(solo, res0, n) is None:
